@@ -1,8 +1,10 @@
 /- driver for CDCN lines (C10, C11, C12) -/
 import CollectionModel.Generated.Facts
+import CollectionModel.Generated.Scanner
 import Driver.CollDrv
 import CollectionModel.Model.Cdcn.Parse
 import CollectionModel.Model.Cdcn.Format
+import CollectionModel.Model.Cdcn.Sentence
 import CollectionModel.Model.SetM
 open Lean CM CM.Cdcn
 
@@ -58,6 +60,21 @@ def parsedStr : Parsed → String
 def lineCol (src : List Nat) (i : Nat) : Nat × Nat :=
   (src.take i).foldl (fun (lc : Nat × Nat) c => if c == 10 then (lc.1 + 1, 1) else (lc.1, lc.2 + 1)) (1, 1)
 
+/-- at one source position: every hand-written recogniser answers what the leftmost-first matcher answers
+    on the pattern tree regenerated from scanner.go (same order: Tie.scanner_order_tie) -/
+def reAgreeAt (src : List Nat) : Bool :=
+  (Generated.matcherTrees.zip matchers).all fun p => p.1.2.matchLen src == p.2.2 src
+
+/-- ... at every position where the scanner model starts a token -/
+def reAgree : Nat → List Nat → Bool
+  | 0, _ => true
+  | _, [] => true
+  | f+1, c :: cs =>
+    reAgreeAt (c :: cs) &&
+      (match matchToken (c :: cs) with
+       | none => true
+       | some (_, n) => reAgree f ((c :: cs).drop (if n == 0 then 1 else n)))
+
 def cdcnLine (j : Json) : String :=
   let pid := str j "pid"
   let src := nats j "src"
@@ -107,7 +124,8 @@ def cdcnLine (j : Json) : String :=
     (if out == "ret" then some "inexact-literal-accepted" else none)
   let spec11c : Option String := if has j "det" && !bool j "det" then some "result-depends-on-schedule" else none
   let spec := if pid == "C11" then (spec11.orElse fun _ => spec11b.orElse fun _ => spec11c) else spec12
-  let corr := if !scanOk then some "scanner" else if !corrParse then some "parser" else none
+  let reOk := reAgree (src.length + 1) src
+  let corr := if !scanOk then some "scanner" else if !reOk then some "recogniser-vs-pattern" else if !corrParse then some "parser" else none
   verdict corr.isNone spec.isNone s!"{pid}/{spec.getD "ok"}/{str j "gen"}"
     s!"corr-break:{corr.getD "-"} model={parsedStr m} tokens={toks.length}"
 
@@ -155,6 +173,31 @@ def containsDots (t : List Nat) : Bool :=
     | [] => false
   go t
 
+/-- the contract `LeafLex` of the round-trip theorem (Lemmas/RoundTrip.lean), checked on one shipped
+    leaf text: before each of the three characters that can follow a leaf in the formatter's output the
+    scanner model reads the text as exactly one token of a literal kind -/
+def leafLexOk (t : List Nat) : Bool :=
+  [ch ']', 10, ch ':'].all fun c =>
+    match matchToken (t ++ [c]) with
+    | some (tt, n) => n == t.length && isLiteralKind tt
+    | none => false
+
+/-- the predicate `Canon` of the round-trip theorem as a Boolean (equality of values by `valEq`) -/
+partial def canonB (max : Nat) (d : Nat) : Val → Bool
+  | .arr cls n xs => cls && !n && d < max && xs.all (fun x => canonB max (d+1) x && !isAssocVal x)
+  | .coll .catalog xs => d < max && xs.all (fun x => canonB max (d+1) x && isAssocVal x) &&
+      (let c := Val.catalogOf (pairsOf xs); c.length == xs.length && (c.zip xs).all (fun p => valEq p.1 p.2))
+  | .coll .set xs => d < max && xs.all (fun x => canonB max (d+1) x && !isAssocVal x) &&
+      (match mkSetModel xs with | some v => valEq v (.coll .set xs) | none => false)
+  | .coll _ xs => d < max && xs.all (fun x => canonB max (d+1) x && !isAssocVal x)
+  | .gomap cls n es => cls && !n && d < max && es.all (fun e => canonB max (d+1) e.2 && !isAssocVal e.2) &&
+      (let c := Val.mapOf es; c.length == es.length && (c.zip es).all (fun p => valEq p.1.1 p.2.1 && valEq p.1.2 p.2.2))
+  | .assoc _ x => canonB max d x && !isAssocVal x
+  | _ => true
+
+def isCollB : Val → Bool
+  | .arr _ _ _ => true | .coll _ _ => true | .gomap _ _ _ => true | _ => false
+
 def rtLine (j : Json) : String :=
   let v := parseVal (fld j "v")
   let wide := hasWideMap v
@@ -197,9 +240,27 @@ def rtLine (j : Json) : String :=
           && sameText true (nats j "text2") text)),
       ("text-not-a-fixpoint", str j "fmt2" == "ret" && sameText wide (nats j "text2") text),
       ("scanner-goroutine-left-behind", !bool pj "leak")]
-  let corr := if !corrFmt then some "formatter" else if !corrParse then some "parser" else none
+  -- the externals' contract of the round-trip theorem, on every shipped leaf text
+  let leafOk := leaves.all fun p => leafLexOk p.2
+  -- inside the theorem's hypotheses (canonical value within the limit, contract holds) C10_roundtrip predicts
+  -- what the three models compute: parse (scan (format v)) = v
+  -- ... and the conversion half of the contract: the token of a leaf text converts back to that leaf (narrower
+  -- numeric widths do not: they are outside the theorem, and a recorded finding of the property)
+  let convOk := toks.all fun t => !isLiteralKind t.tt ||
+    (match leaves.find? (fun p => p.2 == t.value), env.conv t with
+     | some p, some x => valEq p.1 x && p.1.tcode == x.tcode
+     | some _, none => false
+     | none, _ => true)
+  let inThm := !deep && isCollB v && canonB Generated.formatterDefaultMaximum 0 v && leafOk && convOk
+  let thmOk := !inThm || wide || (match m with
+    | .ok t => (match parseTokens env (8 * (scan t).length + 16) (scan t) with | .value x => valEq x v | _ => false)
+    | _ => false)
+  let reOk := reAgree (text.length + 1) text
+  let corr := if !corrFmt then some "formatter" else if !corrParse then some "parser"
+    else if !reOk then some "recogniser-vs-pattern"
+    else if !leafOk then some "leaf-contract" else if !thmOk then some "theorem-prediction" else none
   let mtxt := match m with | .ok t => String.ofList (t.map Char.ofNat) | .lib => "<lib panic>" | .hang => "<hang>"
-  verdict corr.isNone spec.isNone s!"C10/{spec.getD "ok"}/{str j "gen"}" s!"corr-break:{corr.getD "-"}{if corrFmt then "" else " model-text=" ++ mtxt}"
+  verdict corr.isNone spec.isNone s!"C10/{spec.getD "ok"}/{str j "gen"}{if inThm then "/thm" else ""}" s!"corr-break:{corr.getD "-"}{if corrFmt then "" else " model-text=" ++ mtxt}"
 
 def rtseqLine (j : Json) : String :=
   let same := str j "fmt" == "ret" && sortLines (splitLines (nats j "fresh")) == sortLines (splitLines (nats j "after"))
